@@ -42,6 +42,7 @@ PERSONALITIES = [
     ('single', [{'port': 300, 'link': 1}]),
     ('address-link', [{'port': 2, 'link': '1.2.3.4'}]),
     ('address-link', [{'port': 3, 'link': '2001:db8::1'}]),
+    ('address-link', [{'port': 1, 'link': '12'}]),
     ('multi', [{'port': 1, 'link': 0}, {'port': 2, 'link': '10.0.0.9'}]),
     ('multi', [{'port': 1, 'link': 2}, {'port': 1, 'link': 3}, {'port': 15, 'link': 4}]),
 ]
@@ -65,6 +66,17 @@ def variations(rng, conf):
     if len(base) > 1:
         out.append(('different', [dict(s) for s in base[:-1]]))
         out.append(('different', list(reversed([dict(s) for s in base]))))
+    # the same link spelt in the other kind (numeric 5 vs address text "5"): equal as text, different as route path
+    e = [dict(s) for s in base]
+    for seg in e:
+        if isinstance(seg['link'], int):
+            seg['link'] = str(seg['link'])
+            break
+        if isinstance(seg['link'], str) and seg['link'].isdigit():
+            seg['link'] = int(seg['link'])
+            break
+    if e != base:
+        out.append(('different', e))
     d = [dict(s) for s in base]
     d[0]['port'] = 4000 if d[0]['port'] < 15 else 4
     out.append(('different', d))
